@@ -65,6 +65,9 @@ def build_mesh(world):
     data = RawMeshData()
     data.vertices += [list(p) for p in world["points"]]
     fl = world.get("flavour", "list")
+    if world.get("declared"):
+        # (some of) the triangles are listed explicitly next to the cells, with a winding of the file's choosing (medit / .tet files do)
+        data.faces += [list(f) for f in world["declared"]]
     if fl == "tuple":
         data.cells += [tuple(c) for c in world["cells"]]
     elif fl == "numpy":
@@ -106,13 +109,13 @@ class C03(Sim):
             "order of the lazy caches); non-trivial = >= 3 judged queries from >= 2 families")
     FAULT_KINDS = ["cache_drop", "bad_index"]
     PROBES = ["interior_edge_ring", "border_edge_ring", "sort_off", "query_after_drop", "miss_query", "interior_vertex", "boundary_extracted",
-              "standalone_extracted", "standalone_outward_checked", "mixed_orientation", "fresh_single_query", "reordered_pass", "second_volume"]
+              "standalone_extracted", "standalone_outward_checked", "mixed_orientation", "fresh_single_query", "reordered_pass", "second_volume", "declared_triangles"]
     QUICK_RUNS = 3000
     THOROUGH_RUNS = 300000
     BLOCK = 25
     ASSUMPTIONS = ["query arguments are valid element indices; misses are non-incident pairs / non-faces, never out-of-range ids",
                    "'positively oriented' is the library's own convention det(pA-pD,pB-pD,pC-pD)>0 for cell (A,B,C,D) (the one its boundary code uses)",
-                   "the standalone extractor's orientation is judged only when faces were completed from cells (default) and every cell is positive",
+                   "the standalone extractor's orientation is judged only when every face was completed from the cells (none declared explicitly) and every cell is positive",
                    "config.sort_neighborhoods fixed per run"]
     COMPONENTS = {"real": ["mouette.mesh.datatypes.volume/surface/linear", "mouette.mesh.mesh_data", "mouette.processing.border.extract_boundary_of_volume"],
                   "stub": ["none"]}
@@ -131,7 +134,26 @@ class C03(Sim):
         if "boundary" in cl and rng.chance(0.5):
             p2, c2, m2 = volgen.gen_tets(rng.fork("world2"), rng.choice([1, 4, 8]))
             world2 = {"points": p2, "cells": c2, "orient": m2}  # a second, unrelated volume in the same process (cross-object histories)
-        return {"world": {"points": pts, "cells": cells, "orient": mode, "flavour": rng.wchoice(["list", "tuple", "numpy"], [3, 1, 1])}, "world2": world2, "sort": rng.chance(0.8), "clients": cl,
+        declared = []
+        if rng.chance(0.3):
+            dr = rng.fork("declared")
+            cnt = {}
+            for c in cells:
+                for q in range(4):
+                    t = tuple(sorted(c[:q] + c[q + 1:]))
+                    cnt[t] = cnt.get(t, 0) + 1
+            tris = sorted(cnt)
+            border = [t for t in tris if cnt[t] == 1]
+            pick = dr.subset(border, dr.choice([0.3, 0.7, 1.0]), at_least=1) + (dr.subset(tris, 0.1) if dr.chance(0.3) else [])
+            seen = set()
+            for t in pick:
+                if t in seen:
+                    continue
+                seen.add(t)
+                t = list(t)
+                dr.shuffle(t)  # any winding, any first vertex
+                declared.append(t)
+        return {"world": {"points": pts, "cells": cells, "orient": mode, "declared": declared, "flavour": rng.wchoice(["list", "tuple", "numpy"], [3, 1, 1])}, "world2": world2, "sort": rng.chance(0.8), "clients": cl,
                 "max_steps": rng.randint(5, 35 if tier == "quick" else 70), "burst": rng.choice([0.2, 0.5, 0.8]),
                 "miss_rate": rng.choice([0.1, 0.3]), "drop_rate": rng.choice([0.05, 0.15, 0.3]),
                 "ops_off": rng.subset(sorted(Q), 0.15), "n_fresh": rng.randint(1, 5)}
@@ -155,6 +177,8 @@ class C03(Sim):
             self.probes["sort_off"] += 1
         if cfg["world"]["orient"] == "mixed":
             self.probes["mixed_orientation"] += 1
+        if cfg["world"].get("declared"):
+            self.probes["declared_triangles"] += 1
         bk = r.border_edge_keys()
         self.border_e = sorted(r.eid[k] for k in bk)
         self.interior_e = sorted(set(range(len(r.edges))) - set(self.border_e))
@@ -355,7 +379,8 @@ class C03(Sim):
             self.exc_violation("boundary-extraction", op, o)
         surf, m2b, b2m = o.value
         self.probes["standalone_extracted"] += 1
-        positive = self.cfg["world"]["orient"] == "positive"
+        # explicitly declared triangles keep the caller's winding in the standalone extractor: outwardness is then the caller's business
+        positive = self.cfg["world"]["orient"] == "positive" and not self.cfg["world"].get("declared")
         if positive:
             self.probes["standalone_outward_checked"] += 1
         self._check_surface(op, surf, dict(b2m), dict(m2b), ref, positive)
